@@ -4,6 +4,8 @@ from vlib import common as C
 from checks import _conc as K
 
 LEVEL = "proof"
+# C functions this check's models mirror (source-text fingerprints are recorded in the evidence, see translate/funchash.py)
+MODELLED_FUNCS = {'src/kv/iwal.c': ['iwal_online_backup', '_checkpoint_exl', '_rollforward_exl', '_onresize']}
 MANIFEST = dict(
     level="proof",
     text=("Lean 4 theorems about an executable model of iwal_online_backup's five stages over an abstract write-ahead log (checkpoint with "
